@@ -74,7 +74,12 @@ impl crate::salsa_struct::SalsaStructInDb for GKey {
         Some(GKey(id))
     }
     unsafe fn memo_table(_: &Zalsa, _: Id, _: Revision) -> crate::table::memo::MemoTableWithTypes<'_> {
-        crate::table::memo::verif::dummy_table()
+        // SAFETY: single-threaded harness
+        match unsafe { REAL_TABLE } {
+            // SAFETY: `memos` was created for `types`
+            Some((types, memos)) => unsafe { types.attach_memos(memos) },
+            None => crate::table::memo::verif::dummy_table(),
+        }
     }
 }
 
@@ -122,6 +127,40 @@ unsafe impl Configuration for CGen {
 /// `FunctionIngredientRef::new` for harness ingredients.
 pub(crate) fn fn_ref<'a>(x: &'a dyn FunctionIngredient) -> FunctionIngredientRef<'a> {
     FunctionIngredientRef::new(x)
+}
+
+/// A real one-slot memo table for the key, for the harnesses that do **not** stub the memo accessors.
+pub(crate) static mut REAL_TABLE: Option<(&'static crate::table::memo::MemoTableTypes, &'static crate::table::memo::MemoTable)> = None;
+pub(crate) fn install_real_table() {
+    let (types, memos) = crate::table::memo::verif::standalone::<Memo<CGen>>();
+    // SAFETY: single-threaded harness
+    unsafe { REAL_TABLE = Some((Box::leak(Box::new(types)), Box::leak(Box::new(memos)))) };
+}
+/// Store `m` in the real table (what `insert_memo` does, minus the deferred-free list).
+pub(crate) fn store_real(m: &'static Memo<CGen>) {
+    // SAFETY: single-threaded harness
+    let (types, memos) = unsafe { REAL_TABLE }.unwrap();
+    // SAFETY: `memos` was created for `types`
+    let _ = unsafe { types.attach_memos(memos) }.insert(MemoIngredientIndex::from_usize(0), std::ptr::NonNull::from(m));
+}
+/// `execute` stand-in for the real-table harnesses: like `stub_execute`, and stores its result in the table.
+pub(crate) fn stub_execute_real<'db, C: Configuration>(
+    _this: &'db IngredientImpl<C>,
+    _db: &'db C::DbView,
+    claim_guard: ClaimGuard<'db>,
+    opt_old_memo: Option<&'db Memo<C>>,
+) -> Option<&'db Memo<C>> {
+    // SAFETY: single-threaded harness; EXEC_RESULT was set by the harness to a leaked `Memo<CGen>`
+    unsafe {
+        EXEC_CALLS += 1;
+        EXEC_OLD = match opt_old_memo {
+            Some(m) => m as *const Memo<C> as usize,
+            None => 0,
+        };
+        let _ = claim_guard.drop();
+        store_real(&*(EXEC_RESULT as *const Memo<CGen>));
+        Some(&*(EXEC_RESULT as *const Memo<C>))
+    }
 }
 
 // ---- harness state shared with the stubs ---------------------------------------------------------
@@ -762,3 +801,115 @@ fn g_evict_1_eviction_keeps_the_header() {
     std::mem::forget(memos);
     std::mem::forget(types);
 }
+
+//@ob id=G-FETCH-2 kind=C props=C01,C03,C05,C06 timeout=2400 fn=IngredientImpl::fetch,IngredientImpl::refresh_memo,IngredientImpl::fetch_hot,IngredientImpl::fetch_cold,IngredientImpl::get_memo_from_table_for,MemoTableWithTypes::get,MemoTableWithTypes::insert flags=stubs,noreplay
+//@ pre: as G-FETCH-1, but the memo lives in a **real** one-slot memo table and `get_memo_from_table_for` is the real code (only the claim table, `verify_memo` and `execute` remain stubbed)
+//@ post: as G-FETCH-1
+#[cfg(kani)]
+#[kani::proof]
+#[kani::unwind(4)]
+#[kani::stub(crate::sync::max_parallelism, crate::verif_support::one_core)]
+#[kani::stub(crate::function::sync::SyncTable::try_claim, crate::function::sync::verif::stub_try_claim)]
+#[kani::stub(crate::function::sync::ClaimGuard::drop_impl, crate::function::sync::ClaimGuard::verif_release)]
+#[kani::stub(crate::function::memo::MemoHeader::verify_memo, crate::function::memo::MemoHeader::verif_verify_memo)]
+#[kani::stub(crate::function::IngredientImpl::execute, stub_execute_real)]
+fn g_fetch_2_fetch_real_memo_table() {
+    let w = world();
+    install_real_table();
+    let cur = w.cur;
+    let stored: bool = vk::any();
+    let has_value: bool = vk::any();
+    let (va, ca) = (vk::any_revision(), vk::any_revision());
+    vk::assume(ca <= va && va <= cur);
+    let d = vk::any_durability();
+    let old = memo(if has_value { Some(11) } else { None }, va, d, ca);
+    let new = memo(Some(12), cur, d, cur);
+    if stored {
+        store_real(old);
+    }
+    // SAFETY: single-threaded harness
+    unsafe { EXEC_RESULT = addr(new) };
+    let (z, l) = w.db.zalsas();
+    let v = *w.ing.fetch(&w.db, z, l, w.id);
+    // SAFETY: single-threaded harness
+    let (calls, old_seen, claims, releases, vcalls) = unsafe { (EXEC_CALLS, EXEC_OLD, crate::function::sync::verif::CLAIMS, crate::function::sync::verif::RELEASES, VERIFY_CALLS) };
+    assert!(calls <= 1);
+    assert!(claims == releases);
+    if calls == 1 {
+        assert!(v == 12);
+        assert!(old_seen == if stored { addr(old) } else { 0 });
+        assert!(!(stored && has_value && old.header.verified_at.load() == cur));
+    } else {
+        assert!(stored && has_value && v == 11);
+        assert!(old.header.verified_at.load() == cur);
+    }
+    if !stored || !has_value {
+        assert!(vcalls == 0);
+    }
+    vcover!(calls == 1 && stored && !has_value, "an evicted value re-executes with its old memo");
+    vcover!(calls == 0, "reuse path reachable");
+    vcover!();
+    std::mem::forget(w);
+}
+
+//@ob id=G-MCA-2 kind=C props=C01,C03,C04,C11 timeout=1800 fn=IngredientImpl::maybe_changed_after,IngredientImpl::maybe_changed_after_cold,MemoHeader::maybe_changed_after_hot,MemoHeader::shallow_verify_memo,MemoHeader::update_shallow,VerifyResult::unchanged_for_memo flags=stubs,noreplay
+//@ pre: as G-MCA-1 but the memo lives in a **real** one-slot memo table (`get_memo_from_table_for`, `memo_slot`, `MemoSlot::get_erased`, `ErasedMemo::downcast` are the real code); any monotone revision vector; the key has no memo, or a final derived memo with any value presence (Some / evicted), any durability, verified at any revision <= current, changed_at <= verified_at; `verify_memo` (stub, contract above) gives any verdict; `execute` (stub) returns a memo verified now with any changed_at <= current; any query revision `rev` <= current
+//@ post: Unchanged <=> the memo that is valid at the end (the stored one if it verified, else the re-executed one) has changed_at <= rev - after a re-execution it is the **new** memo's changed_at that is compared with the caller's revision [C01, C04]; nothing else yields Changed [C03]; no memo => Changed
+//@ post: an Unchanged answer carries the memo's accumulated-inputs flag **as it is after verification** [C11]
+//@ post: `execute` runs at most once, only if verification failed and a value was there, and gets the stored memo as old memo; an evicted memo that does not verify is Changed without executing; every granted claim is released exactly once [C17]
+#[cfg(kani)]
+#[kani::proof]
+#[kani::unwind(4)]
+#[kani::stub(crate::sync::max_parallelism, crate::verif_support::one_core)]
+#[kani::stub(crate::function::sync::SyncTable::try_claim, crate::function::sync::verif::stub_try_claim)]
+#[kani::stub(crate::function::sync::ClaimGuard::drop_impl, crate::function::sync::ClaimGuard::verif_release)]
+#[kani::stub(crate::function::memo::MemoHeader::verify_memo, crate::function::memo::MemoHeader::verif_verify_memo)]
+#[kani::stub(crate::function::IngredientImpl::execute, stub_execute_real)]
+fn g_mca_2_maybe_changed_after_real_memo_table() {
+    let w = world();
+    install_real_table();
+    let cur = w.cur;
+    let stored: bool = vk::any();
+    let has_value: bool = vk::any();
+    let (va, ca) = (vk::any_revision(), vk::any_revision());
+    vk::assume(ca <= va && va <= cur);
+    let d = vk::any_durability();
+    let old = memo(if has_value { Some(11) } else { None }, va, d, ca);
+    let nca = vk::any_revision();
+    vk::assume(nca <= cur);
+    let new = memo(Some(12), cur, d, nca);
+    // SAFETY: single-threaded harness
+    unsafe { EXEC_RESULT = addr(new) };
+    if stored {
+        store_real(old);
+    }
+    let rev = vk::any_revision();
+    vk::assume(rev <= cur);
+    let res = w.ing.maybe_changed_after(&w.db, w.id, rev);
+    // SAFETY: single-threaded harness
+    let (calls, old_seen, claims, releases) = unsafe { (EXEC_CALLS, EXEC_OLD, crate::function::sync::verif::CLAIMS, crate::function::sync::verif::RELEASES) };
+    assert!(calls <= 1);
+    assert!(claims == releases);
+    if !stored {
+        assert!(!res.is_unchanged() && calls == 0);
+    } else if calls == 1 {
+        assert!(has_value);
+        assert!(old_seen == addr(old));
+        assert!(res.is_unchanged() == (nca <= rev));
+    } else if old.header.verified_at.load() == cur {
+        // the stored memo is valid in the current revision (it was, or verification just said so)
+        assert!(res.is_unchanged() == (ca <= rev));
+        if let Some(acc) = acc_of(&res) {
+            assert!(acc == old.header.revisions.accumulated_inputs.load().is_any());
+        }
+    } else {
+        // neither verified nor re-executed: only an evicted value, and then the answer is Changed
+        assert!(!has_value);
+        assert!(!res.is_unchanged());
+    }
+    vcover!(calls == 1, "re-execution path reachable");
+    vcover!(stored && calls == 0 && res.is_unchanged(), "verified-unchanged path reachable");
+    vcover!();
+    std::mem::forget(w);
+}
+
